@@ -5,6 +5,30 @@ import os
 ALL = ["C%02d" % i for i in range(1, 21)]
 
 CHECKS = {
+    "C01": dict(
+        category="model_checking", engine="RailsPipeline",
+        technique="TLA+ transition-system model of the guardrailed turn (RailsPipeline / RailsPipeline2) model-checked with TLC against the judge predicates; every script replayed through LLMRails.generate with scripted rails/LLM; recorded event traces judged by TLC (trace validation) and compared with the model's predicted log",
+        text="TLC enumerates every conversation script of the family (rail counts, verdict vectors accept/reject/rewrite, message kinds, dialog on/off, exceptions on/off, 1-3 turns; Colang 1.0 and the Colang 2.x guardrails library), checks the model against the judge, and every script is executed by the real LLMRails; the recorded internal-event / rail-invocation / LLM-call trace of every turn is judged by the TLA+ predicates gate, order, reject, rewrite. Exhaustive within the bound.",
+        note="trusted: projection of internal events onto the alphabet (harness/pipeline.py), scripted doubles, TLC; prompts may quote intermediate rewritten versions (action results) - only the original text is forbidden after a rewrite",
+        design_ref="6/C01"),
+    "C02": dict(
+        category="model_checking", engine="RailsPipeline",
+        technique="same RailsPipeline machinery: TLC model checking of the turn model (incl. the hidden cross-turn flags) + replay into LLMRails + TLC trace judging (ogate, oreject, ochecked) over multi-turn conversations",
+        text="Every per-turn output verdict sequence over 2-4 turns (any turn may be the blocked one, every later turn judged again), predefined vs LLM-generated messages, Colang 1.0 (events-history cache path) and Colang 2.x (state threading); each LLM-marked utterance must be preceded by a complete ordered all-accepting pass over exactly that version. Exhaustive within the bound.",
+        note="trusted: as C01; bot texts carry per-turn/version markers; predefined messages are not required to pass output rails",
+        design_ref="6/C02"),
+    "C03": dict(
+        category="model_checking", engine="RailsPipeline",
+        technique="fault enumeration over the RailsPipeline script space (verdict F = the rail's action raises) explored by TLC, replayed into LLMRails, traces judged by TLC (contained, completes)",
+        text="Every single fault and pair of faults at every rail call site of 2-3 turn conversations, both rail polarities, both Colang versions; generate must return, the reply must be refusal / internal error and never unapproved LLM text, and the following turn is judged with all rails active. Exhaustive within the bound; one known finding (Colang 2.x inverted-polarity rails fail open).",
+        note="trusted: as C01; faults are exceptions raised by custom rail actions (LLM provider failures excluded by the statement); dialog-action faults not yet enumerated",
+        design_ref="6/C03"),
+    "C16": dict(
+        category="model_checking", engine="RailsPipeline",
+        technique="RailsPipeline model with option gating model-checked by TLC; every options script replayed into LLMRails.generate(options=...); reply, LLM-call count and log.activated_rails judged by TLC predicates",
+        text="All 16 subsets of {input, dialog, retrieval, output} x rail verdict vectors x supplied bot message or not; judged: only selected categories run, input-only and supplied-bot-message reply tables, activated_rails lists exactly the rails that ran with stop on the blocker. Exhaustive within the bound (Colang 1.0 as the property says).",
+        note="trusted: as C01; the undefined combination (output without dialog and without supplied message) is not generated",
+        design_ref="6/C16"),
     "C18": dict(
         category="model_checking", engine="Stream",
         technique="TLA+ spec (StreamIdeal judge + StreamImpl transcription) model-checked with TLC; every (config,text,chunking) replayed into StreamingHandler; observed outcome sets judged by TLC; step traces validated against StreamImpl",
